@@ -93,10 +93,10 @@ let () =
         let ns, eqk = if kind = "SQ" then (0, htoks.(1)) else (int_of_string htoks.(1), htoks.(2)) in
         let eqb = eq_of eqk in
         bump ("cases_" ^ kind); bump ("cases_eq_" ^ eqk);
-        if kind <> "SQ" then begin bump ("cases_nodeSize_" ^ (if ns <= 8 then string_of_int ns else if ns = 64 then "64" else "other")) end;
+        if kind <> "SQ" then begin bump ("cases_nodeSize_" ^ (if ns <= 8 || List.mem ns [17; 20; 33; 48; 64; 100; 1000] then string_of_int ns else "other")) end;
         let st = ref (match kind with
           | "Q" -> Q (q_new (z_of_int ns)) | "S" -> S (s_new (z_of_int ns)) | _ -> SQ sq_new) in
-        let opno = ref 0 and dead = ref false in
+        let opno = ref 0 and dead = ref false and fid_reported = ref false in
         let ev_grow = ref 0 and ev_shrink = ref 0 and ev_refill = ref 0 and ev_adds = ref 0 and ev_removes = ref 0 and maxsize = ref 0 in
         List.iter (fun opres ->
           if not !dead then begin
@@ -108,10 +108,14 @@ let () =
           if toks.(0) = "X" then begin
             bump "snapshots_compared";
             let m = (match !st with Q q -> q_dump q | S s -> s_dump s | SQ q -> sq_dump q) in
-            if res <> "?" && res <> m then begin
+            if res <> "?" && res <> m && not !fid_reported then begin
+              (* reported once per case; the api observables that follow are still compared (the model's
+                 state does not depend on the implementation's answers), so a representation difference
+                 never hides a property-level one later in the same case *)
+              fid_reported := true;
+              let cut x = if String.length x > 300 then String.sub x 0 300 ^ "..." else x in
               Printf.printf "MISMATCH line=%d op=%d kind=fidelity what=%s: representation snapshot: implementation %s, model %s\n"
-                !lineno !opno head res m;
-              dead := true
+                !lineno !opno head (cut res) (cut m)
             end
           end else
           let expect =
@@ -184,15 +188,15 @@ let () =
                | Panic -> dead := true; "PANIC"
                | Hang -> dead := true; "HANG")
           in
-          if res <> "?" && res <> expect then begin
+          if res <> "?" && res <> expect && not (!fid_reported && eqk = "le" && toks.(0) = "C") then begin
             (* Contains under the asymmetric EqualFunc "le" depends on the order in which the code passes
                (stored element, searched value) to the EqualFunc; for an equality that order is
                immaterial, so this is a fidelity observable, not one the property constrains *)
             let kindm = if eqk = "le" && toks.(0) = "C" then "fidelity" else "api" in
             Printf.printf "MISMATCH line=%d op=%d kind=%s what=%s: %s: implementation %s, %s %s\n"
               !lineno !opno kindm head op res (if kindm = "api" then "proved model" else "model (EqualFunc argument order)") expect;
-            (* after a divergence the two states are unrelated: stop comparing this case *)
-            dead := true
+            (* after an api divergence stop comparing this case (cascades); a fidelity one is reported once *)
+            if kindm = "api" then dead := true else fid_reported := true
           end
           end
         ) body;
